@@ -20,6 +20,10 @@
 //!   e <label> <ctx> <hex>     expression source: compile_expression + eval
 //!   d <construct> <n>         depth probe: nesting depth n of one recursive syntactic construct
 //! Results: `ok:…`, `err:<ErrorKind>`, `panic:<file>:<msg>`, `signal:<n>`, `timeout`.
+//! Case order of `gen`: corpus (`/verif/corpus/C01/*.cases`, minimised past failures), depth probes,
+//! kernels, builtins (names read from the `defaults.rs` this binary was built against), mutants.
+//! Other subcommands: `list <tier>` (cases only), `stdin` (cases from stdin), `one <case>` (replay),
+//! `show <case>` (decode the source), `info` (size_of::<Value>(), pointer width).
 //! Every returned `Error` is formatted with `{}`, `{:#}`, `{:?}` and `display_debug_info()` inside
 //! the same guard (stream 5).
 use minijinja::value::{Rest, Serde, Value};
@@ -1183,7 +1187,10 @@ fn mutate(rng: &mut Rng, seeds: &[String], dict: &[String]) -> String {
 }
 
 fn gen_cases(thorough: bool) -> Vec<String> {
-    let mut rng = Rng::new(seed_from_env());
+    // mjh::Rng states of neighbouring seeds are shifted copies of each other (state = (seed + k)·C + D);
+    // spread the seed first so that VERIF_SEED=n and n+1 give unrelated streams
+    let spread = seed_from_env().wrapping_add(0xC01).wrapping_mul(0xD6E8_FEB8_6659_FD93).rotate_left(29) ^ 0x5851_F42D_4C95_7F2D;
+    let mut rng = Rng::new(spread);
     let mut cases = vec![];
     // (0) corpus: minimised past failures, replayed first
     if let Ok(rd) = std::fs::read_dir(concat!(env!("CARGO_MANIFEST_DIR"), "/../corpus/C01")) {
